@@ -2228,6 +2228,78 @@ func genGlue() string {
 		sb.WriteString("def defaultIndexNames : List String := " + leanStrList(names) + "\n")
 	}
 
+	// C07: provisioning defaults of the file server and the file matcher, and the order of the
+	// hide checks / file-system calls in ServeHTTP
+	{
+		var rows []string
+		for _, it := range [][3]string{
+			{"modules/caddyhttp/fileserver/staticfiles.go", "FileServer", "Provision"},
+			{"modules/caddyhttp/fileserver/matcher.go", "MatchFile", "Provision"},
+		} {
+			_, f := parseFile(it[0])
+			fd := findFunc(f, it[1], it[2])
+			if fd == nil || fd.Body == nil {
+				continue
+			}
+			for _, st := range fd.Body.List {
+				is, ok := st.(*ast.IfStmt)
+				if !ok || is.Init != nil || is.Else != nil || len(is.Body.List) != 1 {
+					continue
+				}
+				be, ok := is.Cond.(*ast.BinaryExpr)
+				if !ok || be.Op != token.EQL {
+					continue
+				}
+				sel, ok := be.X.(*ast.SelectorExpr)
+				if !ok {
+					continue
+				}
+				if y := exprText(be.Y); y != `""` && y != "nil" {
+					continue
+				}
+				as, ok := is.Body.List[0].(*ast.AssignStmt)
+				if !ok || len(as.Lhs) != 1 || len(as.Rhs) != 1 || exprText(as.Lhs[0]) != exprText(sel) {
+					continue
+				}
+				val := exprText(as.Rhs[0])
+				if cl, ok := as.Rhs[0].(*ast.CompositeLit); ok {
+					val = "[" + strings.Join(strLits(cl), ",") + "]"
+				}
+				rows = append(rows, "("+leanStr(it[1])+", "+leanStr(sel.Sel.Name)+", "+leanStr(val)+")")
+			}
+		}
+		sb.WriteString("\n/-- FileServer.Provision (staticfiles.go) and MatchFile.Provision (matcher.go): every top-level\n    `if x.F == \"\" / nil { x.F = v }` in source order: (type, field, v) -/\n")
+		sb.WriteString("def fileserverProvisionDefaults : List (String × String × String) := [" + strings.Join(rows, ", ") + "]\n")
+
+		var calls []string
+		_, f := parseFile("modules/caddyhttp/fileserver/staticfiles.go")
+		if fd := findFunc(f, "FileServer", "ServeHTTP"); fd != nil && fd.Body != nil {
+			ast.Inspect(fd.Body, func(x ast.Node) bool {
+				ce, ok := x.(*ast.CallExpr)
+				if !ok {
+					return true
+				}
+				name := exprText(ce.Fun)
+				switch name {
+				case "fileHidden", "fs.Stat", "fsrv.openFile", "fsrv.serveBrowse", "fsrv.getEtagFromFile", "fsrv.notFound", "redirect", "http.ServeContent":
+					arg := ""
+					switch name {
+					case "fileHidden":
+						arg = exprText(ce.Args[0])
+					case "fs.Stat", "fsrv.openFile", "fsrv.getEtagFromFile":
+						arg = exprText(ce.Args[1])
+					case "fsrv.serveBrowse":
+						arg = exprText(ce.Args[2])
+					}
+					calls = append(calls, "("+leanStr(name)+", "+leanStr(arg)+")")
+				}
+				return true
+			})
+		}
+		sb.WriteString("\n/-- FileServer.ServeHTTP: every call of fileHidden / fs.Stat / openFile / serveBrowse / getEtagFromFile /\n    notFound / redirect / http.ServeContent in source order, with the file-name argument -/\n")
+		sb.WriteString("def serveHTTPCalls : List (String × String) := [" + strings.Join(calls, ", ") + "]\n")
+	}
+
 	// C18: which operands the consumers hand to the replacer
 	{
 		var rows []string
